@@ -523,6 +523,15 @@ PROPERTIES['C14']['obligations'] += [
          targets=['tree2d.cpp BuildTwoDTree, BuildTwoDTreeImpl', 'parallel.h stable_sort (Seq)'])
 ]
 PROPERTIES['C18']['obligations'] += [
+    dict(name='box_spec', harness='c18_box.cpp', entry='h_box_spec', real='f16', defs={'VF_BND': 1024}, backends=['minisat', 'kissat'], timeout=900, unwind={'default': 4},
+         claim='struct Box against its set-theoretic definition written independently: Contains(point), DoesOverlap(point) (xy-projected, as documented), Contains(box), DoesOverlap(box) (closed intervals, symmetric), Union(box), Union(point), two-corner constructor, Size, Scale, operator==',
+         bounds='all binary16 values |x| <= 1024 for both boxes and the point (order comparisons, min/max and one subtraction: independent of the format); min <= max NOT assumed', targets=['common.h Box']),
+    dict(name='box_finite_empty', harness='c18_box.cpp', entry='h_box_finite', backends=['minisat'], timeout=600, unwind={'default': 4},
+         claim='Box::IsFinite for every bit pattern; the default Box is empty (contains no point) and is the identity of Union', bounds='all 64-bit patterns / all finite doubles', targets=['common.h Box::IsFinite, Box()']),
+    dict(name='rect_spec', harness='c18_box.cpp', entry='h_rect_spec', real='f16', defs={'VF_BND': 1024}, backends=['minisat', 'kissat'], timeout=900, unwind={'default': 4},
+         claim='struct Rect against its set-theoretic definition: Contains(point), Contains(rect), DoesOverlap (closed, symmetric), Union, Size, IsEmpty', bounds='all binary16 values |x| <= 1024', targets=['common.h Rect']),
+]
+PROPERTIES['C18']['obligations'] += [
     dict(name='raycast_axis%d' % ax, harness='c18_raycast.cpp', entry='h_raycast', defs={'VF_AXIS': ax, 'VF_R': 2, 'VF_CONCRETE_TRI': 1}, real='f16',
          models=['stdlib.h'], unwind={'default': 14, 'FindCollision': 3, 'realloc_insert|insertion_sort|introsort': 3, 'RadixTree|RangeEnd|FindSplit': 8}, recursion={'default': 2}, backends=['kissat', 'minisat'], timeout=2400, mem_gb=24, object_bits=12,
          tiers=['experimental'],
